@@ -124,6 +124,39 @@ def p2(prog, ctx):
                              "%s numbers the groups by iterating %s but %s (indexed with those numbers in this class) is %s: "
                              "the two orders differ whenever %s is an unordered set, so counts are printed under other groups' names"
                              % (D, src(X), L, " / ".join(src(v) for v in defs), src(X)))
+    # the group table must be injective by construction: filled only by literals and plain enumeration, starting empty
+    init = prog.func(LRC, "AssignedFeatureCounter.__init__")
+    for node in walk_no_nested(init):
+        if isinstance(node, ast.Call) and isinstance(node.func, ast.Attribute) and src(node.func.value) == "self.group_numeric_ids" \
+                and node.func.attr in ("setdefault", "update"):
+            ctx.fail("P2", node, init._qualname, src(node), "group_numeric_ids is filled with %s(): an entry that already exists keeps "
+                     "its old number, so two groups can share one numeric id and their counts are merged" % node.func.attr)
+            n += 1
+    for loop in [x for x in walk_no_nested(init) if isinstance(x, ast.For) and "enumerate(" in src(x.iter)
+                 and "self.group_numeric_ids[" in src(x)]:
+        # nearest preceding plain assignment of the dict in an enclosing block must be the empty literal
+        reach = []
+        cur = loop
+        while cur is not None and cur is not init and not reach:
+            par = cur._parent
+            for fld in ("body", "orelse", "finalbody"):
+                blk = getattr(par, fld, None)
+                if isinstance(blk, list) and any(x is cur for x in blk):
+                    idx = [i for i, x in enumerate(blk) if x is cur][0]
+                    for prev in blk[:idx]:
+                        if isinstance(prev, ast.Assign) and dotted(prev.targets[0]) == "self.group_numeric_ids":
+                            reach.append(prev)
+            cur = par
+        if not reach or not (isinstance(reach[-1].value, ast.Dict) and not reach[-1].value.keys):
+            ctx.fail("P2", loop, init._qualname, "group_numeric_ids before enumerate",
+                     "the numbered group table does not start empty in this branch (%s): a pre-seeded entry shares its number "
+                     "with the first enumerated group" % (src(reach[-1]) if reach else "no initialisation"))
+        else:
+            ctx.ok("P2", "%s:%d" % (LRC, loop.lineno), "group table starts empty and is filled by plain enumeration")
+    if n == 0:
+        ctx.fail("P2", init, init._qualname, "group_numeric_ids", "the name->number table of the grouped counter is no longer built by "
+                 "plain enumeration of the ordered group list")
+        n = 1
     ctx.floor("P2", "enumerate-built index tables", n, 1)
 
 
